@@ -147,6 +147,52 @@ func checkParallelProtocol(c *an.Ctx, id string, d *delFns) {
 		}
 		dfs(sc.Block())
 		c.Check(okStop, id, "worker-stops-on-error", "after a step that failed with anything but 'header missing' the worker takes no further height", worker, sc, "", nil)
+		// a tolerated 'missing' is not a failure of the worker: when the worker goes on to the next
+		// height (or finds the job channel closed) the error it has recorded is nil again, as in the
+		// sequential driver, which simply drops it
+		isErrField := func(addr ssa.Value) bool {
+			fa, ok := addr.(*ssa.FieldAddr)
+			return ok && isFieldOf(fa, nil, "err")
+		}
+		for _, b := range worker.Blocks {
+			for i, in := range b.Instrs {
+				st, isSt := in.(*ssa.Store)
+				if !isSt || !isErrField(st.Addr) || wt.Of(st.Val) != stepErr {
+					continue
+				}
+				okClean := true
+				seenB := map[*ssa.BasicBlock]bool{}
+				var walk func(bb *ssa.BasicBlock, start int)
+				walk = func(bb *ssa.BasicBlock, start int) {
+					for _, in2 := range bb.Instrs[start:] {
+						if in2 == recv {
+							okClean = false
+							return
+						}
+						if s2, ok := in2.(*ssa.Store); ok && isErrField(s2.Addr) {
+							if k, isK := s2.Val.(*ssa.Const); isK && k.IsNil() {
+								return // recorded error reset
+							}
+						}
+					}
+					for _, s := range bb.Succs {
+						nilEdge := false
+						for _, f := range wf.EdgeFacts(bb, s) {
+							if !wf.At(bb).Has(f) && f.Op == "EQ" && f.Pos && (f.A == "nil" || f.B == "nil") && (strings.Contains(f.A+f.B, ".err") || strings.Contains(f.A+f.B, stepErr)) {
+								nilEdge = true
+							}
+						}
+						if nilEdge || seenB[s] {
+							continue
+						}
+						seenB[s] = true
+						walk(s, 0)
+					}
+				}
+				walk(b, i+1)
+				c.Check(okClean, id, "worker-forgets-missing", "a worker that goes on after a tolerated 'header missing' does not keep that error as its result: the error it recorded is nil again when it takes the next height or finds the job channel closed", worker, st, "", nil)
+			}
+		}
 	}
 
 	// (3) close(jobCh) → Wait → Sort → evaluation
